@@ -34,6 +34,14 @@ entries! {
         params(&s, pout);
         s.refill(drounds, &mut *out);
     }
+    // C15: history set -> refill4 -> get -> refill
+    fn h_c15_set_refill4(key: *const [u8; 32], nonce: *const [u8; 8], ctr0: u64, param: u32, value: u64, drounds: u32, out4: *mut [u8; 256], out: *mut [u8; 64], pout: *mut [u8; 16]) {
+        let mut s = mk(key, nonce, ctr0);
+        s.set_stream_param(param, value);
+        s.refill4(drounds, &mut *out4);
+        params(&s, pout);
+        s.refill(drounds, &mut *out);
+    }
     // C15: stream equality predicates on two arbitrary states: bit0 = stream32_eq, bit1 = stream64_eq
     fn h_c15_eq(key1: *const [u8; 32], nonce1: *const [u8; 8], ctr1: u64, key2: *const [u8; 32], nonce2: *const [u8; 8], ctr2: u64) -> u32 {
         let a = mk(key1, nonce1, ctr1);
